@@ -579,9 +579,29 @@ class WrappedTable:
         rel_type = f"Mapped[{target_wrapped_table.tablename}]"
         # relationships have to be post updated since since it won't work in the case of subclasses with another ref otherwise
         rel_constructor = f"relationship('{target_wrapped_table.tablename}', uselist=False, foreign_keys=[{fk_name}], post_update=True)"
+        if self.shares_inheritance_chain_with(target_wrapped_table):
+            # a reference into the own class hierarchy is self-referential for SQLAlchemy, which then takes the side
+            # of the foreign key for the remote side (one-to-many) unless it is told otherwise
+            rel_constructor = (
+                rel_constructor[:-1]
+                + f", remote_side='{target_wrapped_table.full_primary_key_name}')"
+            )
         self.relationships.append(
             ColumnConstructor(rel_name, rel_type, rel_constructor)
         )
+
+    def shares_inheritance_chain_with(self, other: WrappedTable) -> bool:
+        """
+        :param other: The other table.
+        :return: Whether the other table is this table, one of its ancestors or one of its descendants.
+        """
+        for descendant, ancestor in ((self, other), (other, self)):
+            table = descendant
+            while table is not None:
+                if table is ancestor:
+                    return True
+                table = table.parent_table
+        return False
 
     def create_one_to_many_relationship(self, wrapped_field: WrappedField):
         """
